@@ -1,13 +1,16 @@
 (* Correspondence definitions for C06: both spellings of each generated pair evaluated by the model. *)
 From Coq Require Import List NArith ZArith Bool.
 Import ListNotations.
-From GMS Require Import Expr.C05Expr.
+From GMS Require Import Expr.C05Expr Rel.C06HashIn.
 
 Inductive case :=
 (* two predicates used as WHERE filters over the same rows; observed kept positions of each *)
 | WherePair (rows : list row) (p1 p2 : expr) (w1 w2 : list N)
 (* two select-list expressions; observed values per row *)
 | SelPair (rows : list row) (e1 e2 : expr) (v1 v2 : list val)
+(* WHERE x IN (static list) on a table without indexes (HashInTuple): left type, left expression, literal elements with
+   their types; observed positions kept by WHERE x IN (..) and by WHERE NOT (x IN (..)) *)
+| HashInCase (rows : list row) (lt : ty) (x : expr) (es : list (val * ty)) (w wn : list N)
 (* inner join of A and B on p (columns of B follow those of A); observed (i, j) pairs in nested-loop order *)
 | JoinCase (A B : list row) (p : expr) (obs : list (N * N)).
 
@@ -36,6 +39,9 @@ Definition ok (c : case) : bool :=
   | SelPair rows e1 e2 v1 v2 =>
       wt e1 && wt e2 && list_eqb val_eqb (map (fun r => eval r e1) rows) v1
       && list_eqb val_eqb (map (fun r => eval r e2) rows) v2
+  | HashInCase rows lt x es w wn =>
+      list_eqb N.eqb (positions (fun r => match hash_in lt (eval r x) es with TT => true | _ => false end) rows 0%N) w &&
+      list_eqb N.eqb (positions (fun r => match hash_in lt (eval r x) es with TF => true | _ => false end) rows 0%N) wn
   | JoinCase A B p obs =>
       wt p && list_eqb pair_eqb (jall (fun r => is_true (eval r (push_not (simplify p)))) A B 0%N) obs
   end.
